@@ -41,7 +41,9 @@ MANIFEST = {
             "(embedded objects, lists of embedded objects, extensions, bundle members, observed-data members and plain "
             "dictionaries followed with the same model; other property types {Ok, InvalidValueError}); coverage predicate: "
             "every class x every top-level slot / embedded path (depth<=3) / extension entry / dictionary key x 23 JSON kinds "
-            "incl. format-hostile text, required slots dropped, unknown/reserved keys, via parse / text / file / "
+            "incl. format-hostile text, names at the edges of the naming rules (empty, one character, 300 characters), required "
+            "slots dropped, unknown/reserved keys, deep values (300..3000 levels) at every nesting site x entry point x "
+            "with/without id, via parse / text / file / "
             "dict_to_stix2 / parse_observable / construction / MemoryStore.add, raw JSON values and texts, a worker with "
             "user-registered classes (forked per case), deep nesting; quick samples 14 000 + 1 377, thorough ~193 000. "
             "ORACLE-only (model-independent): family membership of whatever escapes, deep registry snapshot unchanged by a "
@@ -67,6 +69,8 @@ FEW_KINDS = [None, 5, "abc", [1], {"a": 1}, JUNK]
 # text that is hostile to message formatting (str.format fields, % conversions, lone braces)
 HOSTILE = ["{x}", "{0}", "{0.a}", "%s", "%(a)s", "{", "}", "{0[a]}", "%"]
 KINDS += ["{x}", "%(a)s", {"{0.a}": 1}]
+# property / key / type names at the edges of the naming rules
+ODD_NAMES = ["", "a", "_", "0", "1_2", "__", "-", "x" * 300]
 
 SPECIAL_KEYS = ["extensions", "granular_markings", "custom_properties", "_valid_refs", "spec_version", "type", "id",
                 "objects", "definition", "definition_type", "created", "pattern", "pattern_type", "object_marking_refs"]
@@ -238,6 +242,14 @@ def gen_slot_cases(run, desc):
                 for ac in (False, True):
                     cases.append(mk(subst=[[[h], 1]], allow_custom=ac))
                 cases.append(mk(subst=[[["custom_properties"], {h: 1}]], allow_custom=rng.random() < 0.5))
+            for nm in ODD_NAMES:
+                for ac in (False, True):
+                    cases.append(mk(subst=[[["custom_properties"], {nm: 1}]], allow_custom=ac))
+                    cases.append(mk(subst=[[["custom_properties"], {nm: None}]], allow_custom=ac))
+            for pth, dval in dict_paths(base, [], 4):
+                sample = next(iter(dval.values())) if dval else "v"
+                for nm in (ODD_NAMES if thorough else rng.sample(ODD_NAMES, 2)):
+                    cases.append(mk(subst=[[pth + [nm], sample]], allow_custom=rng.random() < 0.5))
             # a list value with one more element of another kind (a valid element followed by junk)
             for name in top:
                 if isinstance(base[name], list) and base[name]:
@@ -253,8 +265,8 @@ def gen_slot_cases(run, desc):
             for s in c["slots"]:
                 if s["required"] and s["name"] in base:
                     cases.append(mk(drop=[s["name"]]))
-            # unknown keys
-            for name in ("foo", "x_foo", "Foo", "0abc"):
+            # unknown keys (also the empty name, one character, digits / underscores only, very long)
+            for name in ("foo", "x_foo", "Foo", "0abc") + tuple(ODD_NAMES):
                 for ac in (False, True):
                     cases.append(mk(subst=[[[name], rng.choice(KINDS)]], allow_custom=ac))
             if op == "parse":
@@ -347,6 +359,13 @@ def gen_raw_cases(run):
         vals.append({"type": "x-foo", "id": "x", "extensions": {"extension-definition--" + UUID4: {"extension_type": k}}})
         vals.append({"type": "bundle", "id": "bundle--" + UUID4, "objects": [k]})
         vals.append({"type": "bundle", "id": "bundle--" + UUID4, "objects": k})
+    for nm in ODD_NAMES:
+        vals.append({"type": nm})
+        vals.append({"type": nm, "id": nm + "--" + UUID4})
+        vals.append({"type": "x-foo", "id": "x", "extensions": {nm: {"extension_type": "new-sdo"}}})
+        vals.append({"type": "identity", "spec_version": "2.1", "id": "identity--" + UUID4, "name": "n", nm: 1})
+        vals.append({"type": "identity", "spec_version": "2.1", "id": "identity--" + UUID4, "name": "n", "custom_properties": {nm: 1}})
+        vals.append({"type": "identity", "spec_version": "2.1", "id": "identity--" + UUID4, "name": "n", "extensions": {nm: {"a": 1}}})
     for h in HOSTILE:
         vals.append({"type": h})
         vals.append({"type": h, "id": h + "--" + UUID4})
@@ -492,10 +511,62 @@ def gen_store_cases(run, desc):
     return out
 
 
+def gen_deep_sites(run):
+    """a deep value at every nesting site (extension content, dictionary-valued property, hashes, observed-data
+    member, embedded object, custom property) x entry point (parse, dict_to_stix2, constructor, parse_observable)
+    x with / without id for 2.1 observables"""
+    edk = "extension-definition--" + UUID4B
+    file21 = {"type": "file", "spec_version": "2.1", "name": "a.txt"}
+    proc21 = {"type": "process", "spec_version": "2.1", "pid": 5}
+    nt21 = {"type": "network-traffic", "spec_version": "2.1", "src_ref": "ipv4-addr--" + UUID4B, "protocols": ["tcp"]}
+    em21 = {"type": "email-message", "spec_version": "2.1", "is_multipart": False}
+    wrk21 = {"type": "windows-registry-key", "spec_version": "2.1", "key": "HKLM"}
+    file20 = {"type": "file", "name": "a.txt"}
+    od20 = {"type": "observed-data", "id": "observed-data--" + UUID4, "created": TS, "modified": TS, "first_observed": TS,
+            "last_observed": TS, "number_observed": 1, "objects": {"0": {"type": "file", "name": "x"}}}
+    sites = [
+        # (class key, host, path of the deep value, the dicts along the path are already present)
+        ("v21.observables.File", dict(file21, extensions={edk: {"extension_type": "property-extension"}}), ["extensions", edk, "payload"]),
+        ("v21.observables.File", dict(file21, extensions={"ntfs-ext": {"sid": "1"}}), ["extensions", "ntfs-ext", "sid"]),
+        ("v21.observables.File", dict(file21, hashes={"MD5": "d41d8cd98f00b204e9800998ecf8427e"}), ["hashes", "MD5"]),
+        ("v21.observables.File", dict(file21), ["x_deep"]),
+        ("v21.observables.Process", dict(proc21, environment_variables={"abc": "v"}), ["environment_variables", "abc"]),
+        ("v21.observables.NetworkTraffic", dict(nt21, ipfix={"abc": "v"}), ["ipfix", "abc"]),
+        ("v21.observables.NetworkTraffic", dict(nt21, extensions={edk: {"extension_type": "property-extension"}}), ["extensions", edk, "p"]),
+        ("v21.observables.EmailMessage", dict(em21, additional_header_fields={"abc": ["v"]}), ["additional_header_fields", "abc"]),
+        ("v21.observables.WindowsRegistryKey", dict(wrk21, values=[{"name": "n"}]), ["values", 0, "data"]),
+        ("v20.observables.File", dict(file20, extensions={"ntfs-ext": {"sid": "1"}}), ["extensions", "ntfs-ext", "sid"]),
+        ("v20.sdo.ObservedData", od20, ["objects", "0", "name"]),
+        ("v20.sdo.ObservedData", od20, ["objects", "0", "extensions"]),
+        ("v21.sdo.Identity", identity21(extensions={edk: {"extension_type": "property-extension"}}), ["extensions", edk, "p"]),
+        ("v21.sdo.Identity", identity21(external_references=[{"source_name": "s", "url": "u"}]), ["external_references", 0, "hashes"]),
+    ]
+    out = []
+    for depth in (300, 700, 1100, 3000):
+        for shape in ("list", "dict"):
+            for key, host, at in sites:
+                hosts = [host]
+                if key.startswith("v21.observables."):
+                    hosts.append(dict(host, id=host["type"] + "--" + UUID4))
+                for h in hosts:
+                    d = {"shape": shape, "depth": depth, "within": h, "at": at}
+                    ac = at == ["x_deep"]
+                    for via in (None, "dict_to_stix2", "construct") + (("parse_observable",) if ".observables." in key else ()):
+                        c = {"op": "deep", "deep": d, "allow_custom": ac}
+                        if via:
+                            c["via"] = via
+                        if via == "construct":
+                            c["cls"] = key
+                        if via == "parse_observable":
+                            c["version"] = "2.0" if key.startswith("v20") else "2.1"
+                        out.append(c)
+    return out
+
+
 def gen_deep_cases(run):
     """deep nesting: exercised on the implementation only (except JSON text depth, a modelled site)"""
     w = identity21()
-    out = []
+    out = gen_deep_sites(run)
     for depth in (400, 3000, 100000):
         out.append({"op": "deep", "deep": {"shape": "list", "depth": depth, "text": True}})
         out.append({"op": "deep", "deep": {"shape": "dict", "depth": depth, "text": True}})
@@ -933,13 +1004,11 @@ def check(run):
 
     cases = gen_slot_cases(run, desc) + gen_raw_cases(run) + gen_marking_cases(run, desc) + gen_store_cases(run, desc)
     ws = witnesses()
-    cases += [ws[t] for t in ws]
-    cases += gen_deep_cases(run)
-    if run.tier != "thorough" and len(cases) > 14000:
-        keep = cases[-400:]
-        body = cases[:-400]
-        idx = sorted(run.rng.sample(range(len(body)), 13600))      # keep the grouping by class (case-file headers)
-        cases = [body[i] for i in idx] + keep
+    tail = [ws[t] for t in ws] + gen_deep_cases(run)       # witnesses and deep-nesting inputs are never sampled away
+    if run.tier != "thorough" and len(cases) > 13600:
+        idx = sorted(run.rng.sample(range(len(cases)), 13600))      # keep the grouping by class (case-file headers)
+        cases = [cases[i] for i in idx]
+    cases += tail
     impl = common.run_impl("c17_impl", cases)
     for c, r in zip(cases, impl):
         run.count(c, nontrivial=not ("base" in c and not c.get("subst") and not c.get("drop")))
